@@ -310,7 +310,14 @@ theorem endpoint_demand (s : Str) (b : Bool) (h : endpointDemand s = some b) : e
           simp only [Bool.or_eq_true, List.isEmpty_iff] at hh ⊢
           rcases hh with rfl | hs
           · exact Or.inl rfl
-          · exact Or.inr (isHostName_of_simple host hs)
+          · refine Or.inr ?_
+            have hnc : host.contains ':' = false := by
+              rw [Bool.eq_false_iff]
+              intro hc
+              rw [List.contains_iff_mem] at hc
+              exact (simple_chars host hs ':' hc).1 rfl
+            simp only [isHost, hnc, Bool.false_eq_true, if_false]
+            exact isHostName_of_simple host hs
         · simp [hh] at h
 
 /-! ## `url-path` -/
